@@ -162,6 +162,7 @@ class World:
     def __init__(self):
         self.files: dict[str, bytes] = {}  # canonical path -> content
         self.dirs: set[str] = {ROOT}
+        self.journal: list[dict] = []
         self._open = builtins.open
 
     def mkdir(self, path: str):
@@ -192,7 +193,24 @@ class World:
             self.dirs.discard(path)
             os.rmdir(real(path))
 
+    def apply_model_only(self, op: dict):
+        """mirror an operation that another process (a pool worker) already applied to the disk"""
+        do, path = op["do"], op["path"]
+        if do == "write":
+            self.files[path] = dec_bytes(op["data"])
+            d = os.path.dirname(path)
+            while d.startswith(CANON) and len(d) > len(CANON):
+                self.dirs.add(d)
+                d = os.path.dirname(d)
+        elif do == "delete":
+            self.files.pop(path, None)
+        elif do == "mkdir":
+            self.dirs.add(path)
+        elif do == "rmdir":
+            self.dirs.discard(path)
+
     def apply(self, op: dict):
+        self.journal.append(op)
         do = op["do"]
         path = op["path"]
         if do == "write":
@@ -230,6 +248,9 @@ class World:
 
 # ----------------------------------------------------------------------------
 # fault plan
+
+
+_the_world = None
 
 
 class FaultPlan:
@@ -716,6 +737,9 @@ class SimPool:
                     ok, val = False, e
                 self.results[i].ok = ok
                 self.results[i].value = val
+            for envop in payload.get("journal", []):
+                if _the_world is not None:
+                    _the_world.apply_model_only(envop)
             S.fired.extend(payload["fired"])
             S.audit.extend(payload["audit"])
             S.logs.extend(payload["logs"])
@@ -734,8 +758,11 @@ class SimPool:
         steps0 = S.steps
         out = []
 
+        j0 = len(_the_world.journal) if _the_world is not None else 0
+
         def flush(abort=None):
-            payload = {"results": out, "fired": S.fired, "audit": S.audit, "logs": S.logs,
+            payload = {"journal": _the_world.journal[j0:] if _the_world is not None else [],
+                       "results": out, "fired": S.fired, "audit": S.audit, "logs": S.logs,
                        "violations": S.violations, "steps": S.steps - steps0, "abort": abort}
             with os.fdopen(wfd, "wb") as f:
                 f.write(pickle.dumps(payload))
